@@ -27,9 +27,15 @@ type c04World struct {
 	rec    *script.Rec
 	events []string // deterministic data-bearing callback events: parse / stmt / chunk / row
 	params [][]byte // parameter values handed to statements
+	evCap  int      // > 0: only the first evCap events are kept (long repetitions must not grow the harness)
+	evN    int
 }
 
 func (w *c04World) ev(format string, a ...any) {
+	w.evN++
+	if w.evCap > 0 && len(w.events) >= w.evCap {
+		return
+	}
 	w.events = append(w.events, fmt.Sprintf(format, a...))
 }
 
@@ -62,7 +68,7 @@ func c04Parse(w *c04World) wire.ParseFn {
 						return err
 					}
 					w.ev("row %v", c14Print(row))
-					if n++; n > 1000 {
+					if n++; n > 1000 && !strings.HasSuffix(q, "*") {
 						return fmt.Errorf("runaway")
 					}
 				}
@@ -74,7 +80,7 @@ func c04Parse(w *c04World) wire.ParseFn {
 				if err != nil {
 					return err
 				}
-				for n := 0; n < 1000; n++ {
+				for n := 0; n < 1000 || strings.HasSuffix(q, "*"); n++ {
 					err := cr.Read()
 					if err == io.EOF {
 						return dw.Complete("COPY")
@@ -92,7 +98,9 @@ func c04Parse(w *c04World) wire.ParseFn {
 				for _, p := range params {
 					v, err := p.Scan(uint32(oid.T_text))
 					w.ev("param %q fmt=%d scan=%v err=%v", p.Value(), p.Format(), v, err != nil)
-					w.params = append(w.params, p.Value())
+					if w.evCap == 0 || len(w.params) < w.evCap {
+						w.params = append(w.params, p.Value())
+					}
 				}
 				return dw.Complete("SELECT 0")
 			}, wire.WithParameters(wire.ParseParameters(q)))), nil
@@ -233,6 +241,9 @@ type c04Feed struct {
 	Faults memnet.Faults
 	MaxSeg int
 	NoEOF  bool
+	// SampleEvery: the heap / stack monitor samples at every n-th read (0 = default); EventCap bounds the recorded callbacks
+	SampleEvery int
+	EventCap    int
 }
 
 type c04Obs struct {
@@ -243,6 +254,7 @@ type c04Obs struct {
 	reads    int
 	writes   int
 	heap     int64
+	stack    int64  // growth of goroutine stack memory while the feed was served
 	alloc    uint64 // cumulative bytes allocated while the feed was served
 	probe    string
 	probeErr string
@@ -253,9 +265,13 @@ type c04Obs struct {
 
 // c04Run serves one feed on a fresh server, then opens a probe connection on the SAME server.
 func c04Run(auth bool, f c04Feed, measureHeap bool) c04Obs {
+	return c04RunLimit(auth, f, measureHeap, c04Limit)
+}
+
+func c04RunLimit(auth bool, f c04Feed, measureHeap bool, limit int) c04Obs {
 	var o c04Obs
-	w := &c04World{rec: &script.Rec{Extra: copyHandler}}
-	opts := []wire.OptionFn{wire.MessageBufferSize(c04Limit)}
+	w := &c04World{rec: &script.Rec{Extra: copyHandler, MaxEvs: f.EventCap}, evCap: f.EventCap}
+	opts := []wire.OptionFn{wire.MessageBufferSize(limit)}
 	if auth {
 		opts = append(opts, wire.SessionAuthStrategy(wire.ClearTextPassword(func(ctx context.Context, db, u, pw string) (context.Context, bool, error) {
 			return ctx, pw == "good", nil
@@ -270,7 +286,7 @@ func c04Run(auth bool, f c04Feed, measureHeap bool) c04Obs {
 	mc.F = f.Faults
 	mc.MaxSeg = f.MaxSeg
 	w.rec.Conn = mc
-	mon := &heapMonitor{}
+	mon := &heapMonitor{every: f.SampleEvery}
 	var ms0 runtime.MemStats
 	if measureHeap {
 		mon.start()
@@ -305,6 +321,7 @@ func c04Run(auth bool, f c04Feed, measureHeap bool) c04Obs {
 		o.alloc = ms1.TotalAlloc - ms0.TotalAlloc
 		mon.sample()
 		o.heap = mon.excess()
+		o.stack = mon.stackExcess()
 	}
 	o.events = append([]string(nil), w.events...)
 	o.params = w.params
@@ -332,8 +349,8 @@ func c04Run(auth bool, f c04Feed, measureHeap bool) c04Obs {
 		}
 	}
 	_ = w2
-	if o.status != memnet.Wedged {
-		srv.Stop()
+	if o.status != memnet.Wedged && o.status != memnet.Spinning {
+		srv.Stop() // (Close waits for the commands in flight: it would never return)
 	}
 	return o
 }
@@ -343,11 +360,14 @@ func c04Common(res *explore.Result, o c04Obs, what string) bool {
 		res.Engine = o.engine
 		return false
 	}
+	if o.status == memnet.Wedged || o.status == memnet.Spinning {
+		res.Poison = true // a goroutine of the library is left behind: later cases need a fresh process
+	}
 	switch o.status {
 	case memnet.Wedged:
 		res.Fail("wedged", fmt.Sprintf("%s: the connection's goroutine is still blocked inside the library long after the input ended:\n%s", what, o.wedge))
 	case memnet.Spinning:
-		res.Fail("livelock", fmt.Sprintf("%s: the server keeps reading after the input ended (more than %d reads after EOF)", what, memnet.SpinLimit))
+		res.Fail("livelock", fmt.Sprintf("%s: the server keeps reading after the input ended or the transport failed (more than %d further reads)", what, memnet.SpinLimit))
 	case memnet.Closed:
 	default:
 		res.Fail("not-closed", fmt.Sprintf("%s: connection is %s after the input ended", what, o.status))
@@ -694,12 +714,16 @@ func refDecodeBinaryCopy(b []byte) []string {
 
 // ---- family 3: transport faults ---------------------------------------------------
 
-func c04RunFault(s c04Session, f memnet.Faults, name string) explore.Result {
+func c04RunFault(s c04Session, f memnet.Faults, name string, maxSeg ...int) explore.Result {
 	var res explore.Result
 	res.Outcome = "transport-fault"
 	res.Key = s.Name + name
 	whole := c04Whole(s)
-	o := c04Run(s.Auth, c04Feed{Stream: s.stream(), Faults: f}, false)
+	feed := c04Feed{Stream: s.stream(), Faults: f}
+	if len(maxSeg) > 0 {
+		feed.MaxSeg = maxSeg[0]
+	}
+	o := c04Run(s.Auth, feed, false)
 	what := fmt.Sprintf("session %q, %s", s.Name, name)
 	if !c04Common(&res, o, what) {
 		return res
@@ -732,18 +756,99 @@ func c04RunRaw(raw []byte, afterStartup bool) explore.Result {
 	return res
 }
 
+// ---- family 5: repetition ----------------------------------------------------------------
+//
+// One protocol unit repeated N times on a single connection: whatever a client may send once it may send again
+// and again, and neither the live heap nor the goroutine stack may grow with the number of repetitions.
+
+type c04Unit struct {
+	Name   string
+	Auth   bool
+	Before [][]byte // sent once
+	Unit   [][]byte // repeated
+	After  [][]byte // sent once
+}
+
+func c04Units() []c04Unit {
+	st := [][]byte{pgproto.Startup("user", "u")}
+	tail := [][]byte{pgproto.Sync(), pgproto.Query(progRows)}
+	bs := c04BinaryStream()
+	row := pgproto.BinaryCopyTuple([][]byte{{0, 0, 0, 7}, []byte("seven")})
+	return []c04Unit{
+		{Name: "SSLRequest (declined) before the start-up message", Unit: [][]byte{pgproto.SSLRequest()}, After: append(append([][]byte{}, st...), tail...)},
+		{Name: "GSSENCRequest before the start-up message", Unit: [][]byte{pgproto.Untyped([]byte{0x04, 0xd2, 0x16, 0x30})}, After: append(append([][]byte{}, st...), tail...)},
+		{Name: "Sync", Before: st, Unit: [][]byte{pgproto.Sync()}, After: tail},
+		{Name: "Flush", Before: st, Unit: [][]byte{pgproto.Flush()}, After: tail},
+		{Name: "empty Query", Before: st, Unit: [][]byte{pgproto.Query("")}, After: tail},
+		{Name: "Query", Before: st, Unit: [][]byte{pgproto.Query(progRows)}, After: tail},
+		{Name: "failing Query", Before: st, Unit: [][]byte{pgproto.Query("#perr")}, After: tail},
+		{Name: "unknown message type", Before: st, Unit: [][]byte{pgproto.Msg('z', []byte("abc"))}, After: tail},
+		{Name: "oversized message", Before: st, Unit: [][]byte{pgproto.Msg('Q', make([]byte, c04Limit+1))}, After: tail},
+		{Name: "unnamed Parse/Bind/Describe/Execute/Sync", Before: st, Unit: [][]byte{pgproto.Parse("", "select $1", 25), pgproto.Bind("", "", nil, [][]byte{[]byte("v")}, nil), pgproto.Describe('P', ""), pgproto.Execute("", 0), pgproto.Sync()}, After: tail},
+		{Name: "named Parse/Bind/Execute/Close/Sync (same names)", Before: st, Unit: [][]byte{pgproto.Parse("s", "select $1", 25), pgproto.Bind("p", "s", nil, [][]byte{[]byte("v")}, nil), pgproto.Execute("p", 0), pgproto.Close('P', "p"), pgproto.Close('S', "s"), pgproto.Sync()}, After: tail},
+		{Name: "re-Parse and re-Bind of the same names without Close", Before: st, Unit: [][]byte{pgproto.Parse("s", "select $1", 25), pgproto.Bind("p", "s", nil, [][]byte{[]byte("v")}, nil), pgproto.Sync()}, After: tail},
+		{Name: "Execute of one bound portal", Before: append(append([][]byte{}, st...), pgproto.Parse("s", progRows), pgproto.Bind("p", "s", nil, nil, nil)), Unit: [][]byte{pgproto.Execute("p", 0)}, After: tail},
+		{Name: "errors inside one extended batch (no Sync)", Before: st, Unit: [][]byte{pgproto.Bind("", "nope", nil, nil, nil)}, After: tail},
+		{Name: "error + Sync", Before: st, Unit: [][]byte{pgproto.Execute("nope", 0), pgproto.Sync()}, After: tail},
+		{Name: "stray CopyData outside COPY", Before: st, Unit: [][]byte{pgproto.CopyData([]byte("x"))}, After: tail},
+		{Name: "text COPY of two chunks", Before: st, Unit: [][]byte{pgproto.Query("copyt"), pgproto.CopyData([]byte("1\tone\n")), pgproto.CopyData([]byte("2\ttwo\n")), pgproto.CopyDone()}, After: tail},
+		{Name: "aborted text COPY", Before: st, Unit: [][]byte{pgproto.Query("copyt"), pgproto.CopyData([]byte("1\tone\n")), pgproto.CopyFail("no")}, After: tail},
+		{Name: "binary COPY", Before: st, Unit: [][]byte{pgproto.Query("copyb"), pgproto.CopyData(bs), pgproto.CopyDone()}, After: tail},
+		{Name: "CopyData chunks inside one text COPY", Before: append(append([][]byte{}, st...), pgproto.Query("copyt*")), Unit: [][]byte{pgproto.CopyData([]byte("1\tone\n"))}, After: append([][]byte{pgproto.CopyDone()}, tail...)},
+		{Name: "rows inside one binary COPY (one CopyData each)", Before: append(append([][]byte{}, st...), pgproto.Query("copyb*"), pgproto.CopyData(pgproto.BinaryCopyHeader())), Unit: [][]byte{pgproto.CopyData(row)}, After: append([][]byte{pgproto.CopyData(pgproto.BinaryCopyTrailer()), pgproto.CopyDone()}, tail...)},
+		{Name: "Flush / Sync inside COPY", Before: append(append([][]byte{}, st...), pgproto.Query("copyt")), Unit: [][]byte{pgproto.Flush(), pgproto.Sync()}, After: append([][]byte{pgproto.CopyDone()}, tail...)},
+		{Name: "password message after authentication", Auth: true, Before: [][]byte{pgproto.Startup("user", "u"), pgproto.Password("good")}, Unit: [][]byte{pgproto.Password("late")}, After: tail},
+	}
+}
+
+func c04Reps(tier string) []int {
+	if tier == "thorough" {
+		return []int{2, 3, 50, 1001, 20000, 100000}
+	}
+	return []int{2, 1001, 20000}
+}
+
+const c04StackBound = 256 << 10
+
+func c04RunRepeat(u c04Unit, n int) explore.Result {
+	var res explore.Result
+	res.Outcome = "repetition"
+	res.Key = fmt.Sprint(u.Name, n)
+	unit := bytes.Join(u.Unit, nil)
+	stream := pgproto.Cat(bytes.Join(u.Before, nil), bytes.Repeat(unit, n), bytes.Join(u.After, nil))
+	// small reads so that the monitor sees the connection many times while the repetitions are being served
+	o := c04Run(u.Auth, c04Feed{Stream: stream, MaxSeg: 509, SampleEvery: 64, EventCap: 64}, true)
+	what := fmt.Sprintf("%q repeated %d times on one connection", u.Name, n)
+	if o.flood {
+		o.flood = false // answering every repetition is legitimate; the capture is merely capped
+	}
+	if !c04Common(&res, o, what) {
+		return res
+	}
+	// the capture of the output (<= MaxOut) and of the first callbacks belongs to the harness
+	harnessOwned := int64(2*len(o.out)) + 64<<10
+	if o.heap > heapBound(c04Limit)+harnessOwned {
+		res.Fail("memory-balloon", fmt.Sprintf("%s: live heap grew by %d bytes while the repetitions were served (bound %d for a limit of %d)", what, o.heap, heapBound(c04Limit)+harnessOwned, c04Limit))
+	}
+	if o.stack > c04StackBound {
+		res.Fail("stack-growth", fmt.Sprintf("%s: goroutine stack memory grew by %d bytes while the repetitions were served (bound %d): every repetition leaves a frame behind, a long enough run overflows the stack and kills the process", what, o.stack, c04StackBound))
+	}
+	res.Trans = []string{fmt.Sprintf("serving|%s x%d|closed", u.Name, n)}
+	return res
+}
+
 func init() {
 	explore.Register(&explore.Check{
 		ID:          "C04",
 		Level:       "fault_enumeration",
 		Technique:   "exhaustive enumeration of truncation points, field mutations, raw byte strings and transport fault positions (k-th read, k-th write, n-th byte) over a corpus of canonical sessions, each run on a real server inside crash-isolated worker processes, followed by a probe connection on the same server",
-		Rule:        "prefix closure: every byte prefix of ~190 canonical sessions (startup / SSL refusal / auth x simple, extended, COPY text+binary, oversized, unknown, terminate); mutations: every length / count field of every message type x {0,1,n-1,n+1,255,256,32767,32768,65535} or {0,1,3,4,n-1,n+1,2^31-1,2^31,2^32-2,2^32-1}, body as is and cut/extended to match; raw: all strings of length <= 5 (fresh) / <= 3 (after startup) over {00,01,04,08,7F,80,FF,Q,p}; faults: every k-th read fails / is short, every k-th write fails, failure after every n-th byte; non-trivial = the case ends the connection before its natural end or carries a mutated field",
+		Rule:        "prefix closure: every byte prefix of ~190 canonical sessions (startup / SSL refusal / auth x simple, extended, COPY text+binary, oversized, unknown, terminate); mutations: every length / count field of every message type x {0,1,n-1,n+1,255,256,32767,32768,65535} or {0,1,3,4,n-1,n+1,2^31-1,2^31,2^32-2,2^32-1}, body as is and cut/extended to match; raw: all strings of length <= 5 (fresh) / <= 3 (after startup) over {00,01,04,08,7F,80,FF,Q,p}; faults: every k-th read fails / is short, every k-th write fails, failure after every n-th byte; repetition: each of ~23 protocol units (declined SSLRequest, Sync, Query, extended cycles, COPY units, stray / oversized / unknown messages) repeated N times on one connection with live heap and goroutine-stack growth bounded independently of N; non-trivial = the case ends the connection before its natural end or carries a mutated field",
 		Assumptions: []string{"which error (if any) is sent for malformed input is not asserted", "wedge detection: a 60 s watchdog whose expiry only counts when a stack dump shows a blocked library goroutine; livelock: more than 64 reads after EOF", "live-heap bound 4*max(L,4096)+8 MiB sampled with forced GC"},
 		Enumerate:   c04Enumerate,
 		Bounds: func(tier string) map[string]any {
-			return map[string]any{"sessions": len(c04Sessions()), "mutation_targets": len(c04Targets()), "raw_length_fresh": c04RawLen(tier), "limit": c04Limit}
+			return map[string]any{"sessions": len(c04Sessions()), "mutation_targets": len(c04Targets()), "raw_length_fresh": c04RawLen(tier), "limit": c04Limit, "repetition_units": len(c04Units()), "repetitions": c04Reps(tier), "stack_bound": c04StackBound}
 		},
-		RequiredOutcomes: []string{"whole-session", "prefix", "mutation-session", "mutation-copy", "mutation-startup", "mutation-auth", "transport-fault", "raw-bytes"},
+		RequiredOutcomes: []string{"whole-session", "prefix", "mutation-session", "mutation-copy", "mutation-startup", "mutation-auth", "transport-fault", "raw-bytes", "repetition"},
 	})
 }
 
@@ -836,6 +941,26 @@ func c04Enumerate(tier string, emit explore.Emit) {
 		}
 		for b := 1; b < n; b += step {
 			add(memnet.Faults{FailAfterRead: b}, fmt.Sprintf("after %d bytes everything fails", b))
+		}
+		// the same with the input arriving byte by byte: the server cannot read ahead, so the failure strikes exactly
+		// when it has consumed b bytes (delivered in one piece, the whole session is read before the first reply and
+		// every position degenerates into "the first write fails")
+		addSlow := func(f memnet.Faults, name string) {
+			emit(explore.Case{Family: "transport-fault", Size: 2,
+				Desc: func() any { return map[string]any{"session": s.Name, "fault": name, "delivery": "byte by byte"} },
+				Run:  func() explore.Result { return c04RunFault(s, f, name+" (input arriving byte by byte)", 1) }})
+		}
+		for b := 1; b <= n; b += step {
+			addSlow(memnet.Faults{FailAfterRead: b}, fmt.Sprintf("after %d bytes reads and writes fail", b))
+			addSlow(memnet.Faults{ReadErrAt: b + 1}, fmt.Sprintf("after %d bytes reads fail (writes still succeed)", b))
+		}
+	}
+	// 5. repetition
+	for _, u := range c04Units() {
+		for _, n := range c04Reps(tier) {
+			u, n := u, n
+			emit(explore.Case{Family: "repetition", Size: n, Desc: func() any { return map[string]any{"unit": u.Name, "times": n} },
+				Run: func() explore.Result { return c04RunRepeat(u, n) }})
 		}
 	}
 	// 4. raw byte strings
